@@ -122,6 +122,14 @@ fn lifecycle(p: &HashMap<String, String>) {
                     std::panic::resume_unwind(e);
                 }
             }
+            "noverify_report" => {
+                // report() is the same verdict also after no_verify_in_drop() (only the check AT DROP is disabled)
+                let code = std::process::Termination::report(subject.no_verify_in_drop());
+                let s = format!("{code:?}");
+                if s.contains("1") && !s.contains("0)") {
+                    std::panic::panic_any(String::from("EXITCODE FAILURE"));
+                }
+            }
             "report" => {
                 let code = std::process::Termination::report(subject);
                 let s = format!("{code:?}");
